@@ -702,13 +702,15 @@ def run(ctx):
     ctx.rule = ("random tabular POMDPs (2-4 states incl. 0-2 explicitly absorbing ones with or without ghost dynamics, "
                 "1-3 actions, 1-3 observations, PD, OD in {2,3,4}, action-dependent observation rows with zero entries; "
                 "identity / single / uninformative observation kernels) x initial beliefs (own initial distribution, vertex, "
-                "zero component, interior) x label kinds x distribution kinds x belief representations; every "
+                "zero component, interior) + tiny-mass cases (belief weight 1 of W = 5e8/(PD*OD) on the only state that can produce a planted observation: 0 < Pr(o|b,a) <= 8e-9, depth 1) x label kinds x distribution kinds x belief representations; every "
                 "action/observation history to the depth bound. non-trivial = a filter step from a belief with >= 2 "
                 "supported states under an informative observation (posterior != normalised prediction), or a belief-MDP "
                 "row with >= 2 distinct successor beliefs from such a belief; keyed by (instance, initial belief, history)")
     ctx.assumptions = [
         "TLC evaluates the TLA+ oracle correctly (every 10th emitted live state is recomputed by an independent Fraction implementation)",
-        "float results are compared with the exact rationals at 1e-9 absolute (direct algebraic results, chains of <= 4 updates)",
+        "posteriors are compared with the exact rationals at 1e-9 absolute (direct algebraic results, chains of <= 4 updates); "
+        "predictive and belief-MDP transition probabilities, which can be ~1e-9 at tiny-mass beliefs, at 1e-9 relative + 1e-18 "
+        "(sums of non-negative products: relative float error < 1e-13, derivation at rel_close)",
         "every action is available in every state (a state-dependent action set has no POMDP semantics)",
         "the Bayes filter and the belief reward use the declared rows of absorbing states (literal reading); "
         "75% of the instances have self-looping zero-reward absorbing states where both readings coincide",
